@@ -29,7 +29,7 @@ theorem C08_order_full_false : ¬ C08_order_full := by
 theorem C08_order_partial (s : State) (c : String) (fn : TxnFn) (docs' : Docs) (nid : Nat) (e : Event) (out : Out) (x : Coll)
     (hx : s.coll? c = some x) (hfn : fn (hlcNow s.hlc s.phys) s.now s.nextRowId x.docs = .inr (docs', nid, some e, out)) :
     (withNewCas s c fn).1.feeds = s.feeds.map (fun f =>
-      if f.coll = c ∧ ¬ f.dump then { f with pending := f.pending ++ [.ev e x.id f.keysOnly] } else f) ∧
+      if f.coll = c ∧ ¬ f.dump ∧ ¬ f.stopped then { f with pending := f.pending ++ [.ev e x.id f.keysOnly] } else f) ∧
     hlcNow s.hlc s.phys > s.hlc := by
   refine ⟨?_, hlcNow_gt _ _⟩
   rw [withNewCas_feeds, hx]
@@ -53,12 +53,12 @@ theorem C09_nogap_full_false : ¬ C09_nogap_full := by
 
 /-- **What does hold**: with no write in that window (`opStartFeed` = query and registration back to back) every stored
     row with CAS ≥ start is in the backfill (C09_snapshot), and every later write is delivered live (C08_delivery). -/
-theorem C09_nogap_partial (s : State) (id c : String) (start : Nat) (dump ko : Bool) :
-    (opStartFeed s id c (.from start) dump ko).1 =
+theorem C09_nogap_partial (s : State) (id c : String) (start : Nat) (ko : Bool) :
+    (opStartFeed s id c (.from start) false ko).1 =
       (match s.coll? c with
        | none => s
-       | some _ => feedRegister s id c (feedQuery s c (.from start) ko) dump ko) := by
+       | some _ => feedRegister s id c (feedQuery s c (.from start) ko) false ko) := by
   unfold opStartFeed feedRegister feedQuery
-  cases s.coll? c <;> rfl
+  cases s.coll? c <;> simp
 
 end Rosmar
